@@ -22,6 +22,7 @@ type SpecFun struct {
 	Body          Expr
 	BodySrc       string
 	Rec           bool
+	Macro         bool // expanded at every use (so that triggers see the body)
 	Opaque        bool
 	ParamVars     []*Term
 	BodyTerm      *Term
@@ -40,6 +41,7 @@ type Lemma struct {
 	Opaque []string
 	Where  string
 	Axiom  bool
+	Triggers []string
 }
 
 type Clause struct {
@@ -73,6 +75,15 @@ type Contract struct {
 	Lemma     bool // ghost lemma function: body is verified, never called by real code
 	Skip      map[string]bool // obligation kinds not generated (stated in evidence)
 	MayPanic  bool
+	Asserts   []AssertAt
+}
+
+// AssertAt: a proof-decomposition assertion checked (and then assumed) right
+// after the Ord-th call of Callee in the function body.
+type AssertAt struct {
+	Callee string
+	Ord    int
+	C      Clause
 }
 
 type SpecLib struct {
@@ -177,10 +188,14 @@ func (lib *SpecLib) loadFile(path, prefix string) error {
 			cur, curLemma = nil, nil
 			// spec [rec] fn name(params) type = body   |  spec ufn name(params) type
 			fs := strings.Fields(rest)
-			rec, ufn := false, false
+			rec, ufn, macro := false, false, false
 			if len(fs) > 0 && fs[0] == "rec" {
 				rec = true
 				rest = strings.TrimSpace(strings.TrimPrefix(rest, "rec"))
+			}
+			if len(fs) > 0 && fs[0] == "macro" {
+				macro = true
+				rest = strings.TrimSpace(strings.TrimPrefix(rest, "macro"))
 			}
 			switch {
 			case strings.HasPrefix(rest, "ufn "):
@@ -207,7 +222,7 @@ func (lib *SpecLib) loadFile(path, prefix string) error {
 			}
 			ret = strings.TrimPrefix(ret, ":")
 			ret = strings.TrimSpace(ret)
-			f := &SpecFun{Name: name, SMTName: mangle("s!" + name), Params: ps, RetType: ret, Rec: rec, Where: where, BodySrc: body}
+			f := &SpecFun{Name: name, SMTName: mangle("s!" + name), Params: ps, RetType: ret, Rec: rec, Macro: macro, Where: where, BodySrc: body}
 			kind, w, sg, ok := parseTypeName(ret)
 			if !ok || strings.HasPrefix(kind, "seq") {
 				return bad(fmt.Errorf("bad return type %q", ret))
@@ -262,6 +277,11 @@ func (lib *SpecLib) loadFile(path, prefix string) error {
 				return bad(fmt.Errorf("'by' outside lemma"))
 			}
 			curLemma.By = rest
+		case "trigger":
+			if curLemma == nil {
+				return bad(fmt.Errorf("'trigger' outside lemma"))
+			}
+			curLemma.Triggers = append(curLemma.Triggers, rest)
 		case "func", "lemmafunc":
 			curLemma = nil
 			c := lib.Contracts[rest]
@@ -328,6 +348,24 @@ func (lib *SpecLib) loadFile(path, prefix string) error {
 					return bad(err)
 				}
 				cur.Modifies = append(cur.Modifies, ms...)
+			case "assert":
+				// assert after callee#k: expr
+				r := strings.TrimSpace(strings.TrimPrefix(rest, "after"))
+				i := strings.Index(r, ":")
+				if i < 0 {
+					return bad(fmt.Errorf("assert after <callee>#<k>: <expr>"))
+				}
+				loc, ex := strings.TrimSpace(r[:i]), strings.TrimSpace(r[i+1:])
+				ord := 1
+				if j := strings.Index(loc, "#"); j >= 0 {
+					ord, _ = strconv.Atoi(loc[j+1:])
+					loc = loc[:j]
+				}
+				c, err := clause(ex)
+				if err != nil {
+					return bad(err)
+				}
+				cur.Asserts = append(cur.Asserts, AssertAt{Callee: loc, Ord: ord, C: c})
 			case "inline":
 				cur.Inline = true
 			case "trusted":
@@ -575,6 +613,7 @@ func (lib *SpecLib) bySMT(n string) *SpecFun {
 func (lib *SpecLib) prelude(terms []*Term, opaque map[string]bool, fuel map[string]int) (string, []*Term) {
 	needed := map[string]bool{}
 	var axioms []*Term
+	unfolded := map[*Term]bool{}
 	var scan func(ts []*Term, depth int)
 	scan = func(ts []*Term, depth int) {
 		ord, _ := collect(ts)
@@ -593,7 +632,8 @@ func (lib *SpecLib) prelude(terms []*Term, opaque map[string]bool, fuel map[stri
 				if k, ok := fuel[f.Name]; ok {
 					fl = 1 + k
 				}
-				if depth < fl {
+				if depth < fl && !unfolded[x] {
+					unfolded[x] = true
 					m := map[*Term]*Term{}
 					for i, pv := range f.ParamVars {
 						m[pv] = x.Args[i]
